@@ -254,7 +254,33 @@ def small_facet_worker(part, _):
     part.nontriv("small-facet")
 
 
+def minimal_worker(part, _):
+    """
+    the smallest bounded shapes (the statement covers any facet set that bounds a finite region; these lie below the 6-normal
+    centrosymmetric sets of the quantifier and are cheap): tetrahedra - regular, irregular, rotated, with redundant far facets added -
+    a triangular prism, a square pyramid, an octahedron with one vertex cut
+    """
+    tet = [unit(v) for v in ((1, 1, 1), (1, -1, -1), (-1, 1, -1), (-1, -1, 1))]
+    Q = rot((1, 2, 3), 0.7)
+    shapes = {
+        "tetrahedron": (tet, [1.0] * 4),
+        "tetrahedron-irregular": (tet, [1.0, 1.3, 0.8, 1.7]),
+        "tetrahedron-rotated": ([Q @ v for v in tet], [1.0, 1.2, 0.9, 1.1]),
+        "tetrahedron-skew": ([unit(v) for v in ((1, 0.2, 0.1), (-0.5, 1, 0.3), (-0.4, -0.8, 1), (-0.1, -0.3, -1))], [1.0, 1.1, 0.9, 1.2]),
+        "tetrahedron+redundant": (tet + [unit((1, 0, 0)), unit((0, -1, 0))], [1.0] * 4 + [9.0, 9.0]),
+        "triangular-prism": ([unit(v) for v in ((1, 0, 0), (-0.5, 0.8660254037844386, 0), (-0.5, -0.8660254037844386, 0), (0, 0, 1), (0, 0, -1))], [1.0, 1.0, 1.0, 1.5, 1.5]),
+        "square-pyramid": ([unit(v) for v in ((1, 0, 1), (-1, 0, 1), (0, 1, 1), (0, -1, 1), (0, 0, -1))], [1.0, 1.0, 1.0, 1.0, 0.7]),
+    }
+    for sname, (nrm, en) in shapes.items():
+        for scale in (1.0, 37.0):
+            check_shape(part, np.array([np.asarray(v, dtype=float) for v in nrm]), np.array(en) * scale, {"kind": "minimal"}, "minimal:%s" % sname.split("-")[0].split("+")[0], scale_test=(scale == 1.0))
+    part.nontriv("minimal")
+
+
 def axis_worker(part, chunk, alphabet):
+    if chunk and chunk[0] == "minimal":
+        minimal_worker(part, None)
+        return
     if chunk and chunk[0] == "small-facet":
         small_facet_worker(part, None)
         return
@@ -325,7 +351,7 @@ def run(ctx):
             for ex in extras[1:]:
                 jobs.append((idx, assign, ex))
                 idx += 1
-    ctx.pmap(axis_worker, [["corner"], ["vicinal"], ["small-facet"]] + list(chunked(jobs, max(1, len(jobs) // 256))), alphabet=alphabet)
+    ctx.pmap(axis_worker, [["corner"], ["vicinal"], ["small-facet"], ["minimal"]] + list(chunked(jobs, max(1, len(jobs) // 256))), alphabet=alphabet)
     gjobs = []
     idx = 0
     maxk = 12 if ctx.thorough else 7
@@ -356,6 +382,8 @@ def replay(ctx, case):
         vicinal_worker(ctx, None)
     elif k == "small-facet":
         small_facet_worker(ctx, None)
+    elif k == "minimal":
+        minimal_worker(ctx, None)
     elif k == "corner":
         corner_family_worker(ctx, None)
     elif k == "generic":
